@@ -56,6 +56,10 @@ static const row ROWS[] = {
 	{ "R2G0X4",      IN_TEXT,    8,   2,  2,  0, 0,  0, 0,    1, 0, 0, 0 },	// re-init, same thread count, three times the block size (input buffers must be re-made)
 	{ "X4G0X4",      IN_RANDOM,  8,   2,  2,  0, 0,  0, 0,    0, 0, 0, 0 },
 	{ "X4G0X4",      IN_RANDOM,  12,  2,  2,  0, 0,  0, 0,    1, 0, 0, 1 },
+	{ "R4X4",        IN_TEXT,    3,   4,  2,  0, 0,  0, 0,    2, 0, 0, 0 },	// every byte handed over with LZMA_RUN (the Block is not full, its worker waits for more), then the closing action WITHOUT new input: only the state changes
+	{ "R4F4X4",      IN_TEXT,    6,   4,  2,  0, 0,  0, 0,    1, 0, 0, 0 },
+	{ "R4B4R4X4",    IN_TEXT,    7,   4,  2,  0, 0,  2, 0,    1, 0, 0, 0 },
+	{ "R4X4",        IN_TEXT,    7,   4,  3,  1, 0,  0, 0,    1, 1, 0, 0 },
 	{ "P4O0X4",      IN_TEXT,    12,  4,  3,  0, 0,  0, 0,    1, 0, 0, 0 },	// three Blocks queued (only the Stream Header could be written), then re-init with one thread: more buffers in the queue than the new limit
 	{ "P4O0X4",      IN_TEXT,    16,  4,  3,  0, 0,  0, 0,    0, 0, 0, 0 },
 	{ "E4",          IN_TEXT,    8,   4,  2,  0, 0,  0, 0,    2, 0, 0, 0 },	// every worker fails: the error must reach the caller (no wait for output that never comes)
